@@ -44,10 +44,10 @@ func (db *DB) VerifNow() time.Time {
 }
 
 var (
-	verifPointMx    sync.Mutex
-	verifPointHits  = map[string]int{}
-	verifPointLog   *os.File
-	verifPointArmed = os.Getenv("VERIF_CRASH_POINT")
+	verifPointMx     sync.Mutex
+	verifPointHits   = map[string]int{}
+	verifPointLog    *os.File
+	verifPointArmed  = os.Getenv("VERIF_CRASH_POINT")
 	verifPointNth, _ = strconv.Atoi(os.Getenv("VERIF_CRASH_NTH"))
 )
 
